@@ -29,7 +29,7 @@ KIND_OF_KEY = {'J': 'InertiaMoment', 'w0': 'AngularSpeed', 'Tmax': 'Torque', 'i0
                'start': 'Time', 'duration': 'TimeInterval', 'target': 'AngularPosition', 'brake': 'Angle',
                'limit': 'Current'}
 SENSOR_THR_KIND = {'encoder': 'AngularPosition', 'tachometer': 'AngularSpeed', 'amperometer': 'Current'}
-MODELS = ['spur', 'helical', 'worm', 'wheel-drives', 'flywheel', 'locking']
+MODELS = ['spur', 'helical', 'worm', 'wheel-drives', 'flywheel', 'overhauled', 'locking']
 
 
 def bounds(tier):
@@ -77,6 +77,14 @@ def scenario(name):
         s['loadf'] = ['mix', 0.2, 0.0, 0.0, 0.0]
         s['rules'] = [{'r': 'reach', 'target': [9.876, 'rot'], 'brake': [1234.5, 'deg']}]
         s['stop'] = ['encoder', 3, '>', None]
+    elif name == 'overhauled':
+        # the external load HELPS the motor (negative load torque): static errors, currents and stops change sign
+        s['elements'] = [dict(menu.MOTOR_CUR), {'k': 'S', 'z': 12, 'J': J}, {'k': 'S', 'z': 30, 'J': [300.0, 'gcm^2']}]
+        s['links'] = [{'t': 'J'}, {'t': 'G', 'eta': 0.9}]
+        s['init'] = {'theta': [0.0, 'rad'], 'w': [0.0, 'rad/s']}
+        s['loadf'] = ['mix', -0.15, 0.0, 0.0, 0.0]
+        s['rules'] = [{'r': 'reach', 'target': [2.0, 'rad'], 'brake': [1.5, 'rad']}]
+        s['runs'] = [{'dt': [0.125, 'sec'], 'T': [0.625, 'sec']}, {'dt': [0.125, 'sec'], 'T': [0.5, 'sec']}]
     elif name == 'flywheel':
         s['elements'] = [dict(menu.MOTOR_PLAIN), {'k': 'F', 'J': [120.0, 'kgmm^2']}, {'k': 'S', 'z': 25, 'J': [0.8, 'gm^2']}]
         s['links'] = [{'t': 'J'}, {'t': 'J'}]
@@ -177,13 +185,27 @@ def alt_units(s, path, kind):
 
 
 # -- execution --------------------------------------------------------------------------
-def execute(s):
-    """Build, run the schedule; return ('ok', observation, snapshot) or (phase, exception class)."""
+LIVE_ATTRS = {'inertia_moment': 'InertiaMoment', 'no_load_speed': 'AngularSpeed', 'maximum_torque': 'Torque',
+              'no_load_electric_current': 'Current', 'maximum_electric_current': 'Current', 'module': 'Length',
+              'face_width': 'Length', 'elastic_modulus': 'Stress', 'helix_angle': 'Angle', 'pressure_angle': 'Angle',
+              'reference_diameter': 'Length'}
+
+
+def execute(s, live=None):
+    """Build, run the schedule; return ('ok', observation, snapshot) or (phase, exception class).
+    live = (element index, attribute, unit): after construction the quantity the element's property hands out is
+    converted IN PLACE to that unit by the user (same magnitude), before anything is simulated."""
     spec = {'elements': s['elements'], 'links': s['links'], 'init': s['init'], 'load_unit': s['load_unit']}
     try:
         m = sim.Model(dict(spec, load=['const', 0.0]))
     except Exception as ex:
         return ('construction', type(ex).__name__, str(ex)[:120])
+    if live is not None:
+        try:
+            q = getattr(m.elements[live[0]], live[1])
+            q.to(live[2], inplace=True)
+        except Exception as ex:
+            return ('live-conversion', type(ex).__name__, str(ex)[:120])
     stall = menu.stall_at_output(spec)
     lf = s['loadf']
     m.load = ['mix', lf[1] * stall, lf[2] * stall, lf[3] * stall, lf[4] * stall]
@@ -331,6 +353,39 @@ def check_variant(acc, name, base_s, base_res, devs, inplace=False):
                       dict(d[1], units=[u for _, _, u in devs]))
 
 
+def live_slots(s):
+    """(element index, attribute, kind, current unit) of every quantity an element of the built model hands out."""
+    m = sim.Model(dict({'elements': s['elements'], 'links': s['links'], 'init': s['init'], 'load_unit': s['load_unit']}, load=['const', 0.0]))
+    out = []
+    for i, e in enumerate(m.elements):
+        for attr, kind in LIVE_ATTRS.items():
+            q = getattr(e, attr, None)
+            if q is not None and hasattr(q, 'unit'):
+                out.append((i, attr, kind, q.unit))
+    return out
+
+
+def check_live(acc, name, base_s, base_res, i, attr, kind, unit):
+    """History on live objects: build, convert one handed-out quantity in place, simulate; then build and simulate the
+    untouched base scenario again in the same process.  Both must reproduce the base results."""
+    case = {'kind': 'live', 'model': name, 'element': i, 'attr': attr, 'unit': unit}
+    for phase, res in (('converted-model', execute(copy.deepcopy(base_s), live=(i, attr, unit))),
+                       ('fresh-model-afterwards', execute(copy.deepcopy(base_s)))):
+        acc.executions += 1
+        acc.transitions += 1
+        if res[0] != 'ok':
+            acc.violation(f'C07/live/{phase}/{res[0]}-fails/{res[1]}/{attr}', 're-expressing an input never changes whether construction and simulation succeed',
+                          case, {'phase': res[0], 'exception': res[1], 'message': res[2]})
+            acc.outcomes[('failed', name)] += 1
+            return
+        d = differ(base_res, res)
+        acc.outcomes[('equal' if d is None else 'differs', name, kind, 'live-attribute-in-place/' + phase)] += 1
+        if d is not None:
+            acc.violation(f'C07/live/{phase}/{d[0]}/{attr}', 're-expressing an input changes no physical output beyond rounding', case, dict(d[1], unit=unit))
+            return
+    acc.nstates += 1
+
+
 INTERACTING = [('m', 'm'), ('beta', 'beta'), ('alpha', 'alpha'), ('beta', 'alpha'), ('dt', 'T'), ('i0', 'imax'),
                ('start', 'duration'), ('dt', 'dt'), ('T', 'T'), ('target', 'brake'), ('theta', 'w'), ('dt', 'start'),
                ('limit', 'imax'), ('b', 'd'), ('m', 'd')]
@@ -345,6 +400,7 @@ def shards(tier):
     out = []
     for name in MODELS:
         out.append({'model': name, 'mode': 'single'})
+        out.append({'model': name, 'mode': 'live'})
         P = 8 if tier == 'quick' else 32
         for p in range(P):
             out.append({'model': name, 'mode': 'pairs', 'part': [p, P]})
@@ -369,6 +425,12 @@ def run_shard(shard, tier):
                 for u in alt_units(base_s, path, kind)[:2]:
                     check_variant(acc, name, base_s, base_res, [(path, kind, u)], inplace=True)
         acc.sample({'model': name, 'slots': [slot_name(base_s, p) for p, _ in sl], 'mode': 'one quantity re-expressed in every other unit'})
+    elif shard['mode'] == 'live':
+        for i, attr, kind, u0 in live_slots(base_s):
+            alts = [u for u in si.UNITS[kind] if u != u0]
+            for u in (alts if tier != 'quick' else alts[:2]):
+                check_live(acc, name, base_s, base_res, i, attr, kind, u)
+        acc.sample({'model': name, 'mode': 'a quantity handed out by a built element converted in place, then a fresh model'})
     else:
         p, P = shard['part']
         idx = 0
@@ -395,5 +457,10 @@ def replay(case):
         base_s, err = prepare(case['model'])
         base_res = execute(base_s)
         check_variant(acc, case['model'], base_s, base_res, [(tuple(p), k, u) for p, k, u in case['devs']], inplace=case.get('inplace', False))
+        return acc.violations
+    if case.get('kind') == 'live':
+        base_s, err = prepare(case['model'])
+        base_res = execute(base_s)
+        check_live(acc, case['model'], base_s, base_res, case['element'], case['attr'], LIVE_ATTRS[case['attr']], case['unit'])
         return acc.violations
     return run_shard(case['shard'], 'quick').violations
